@@ -36,7 +36,7 @@ package dao
 // The status transitions are compare-and-set updates (... WHERE xid = ? AND branch_id = ? AND status = ?):
 // an update that changed no row means the record was not in the expected status - another delivery got
 // there first - and must fail, or confirm and cancel can both be applied.
-//@ iface (database/sql.Result).RowsAffected
+//@ iface (sql.Result).RowsAffected
 //@   ensures true
 //@ func (*TccFenceStoreDatabaseMapper).UpdateTCCFenceDO
 //@   prop C06
